@@ -205,6 +205,27 @@ theorem step_paused {s s' : St} {op : Op} {o : Out} {a : Addr}
   | advance e =>
     obtain ⟨_, rfl⟩ := advance_spec h
     exact hpa
+  | setTmpPeriod c n =>
+    obtain ⟨_, _, rfl⟩ := setTmpPeriod_spec h
+    exact hpa
+  | clearTmp c =>
+    obtain ⟨_, _, rfl⟩ := clearTmp_spec h
+    exact hpa
+  | issueLp c x =>
+    obtain ⟨_, _, _, _, _, _, rfl⟩ := issueLp_spec h
+    exact hpa
+  | setLocalRoles c x =>
+    obtain ⟨_, _, _, _, rfl⟩ := setLocalRoles_spec (c := c) h
+    exact hpa
+  | upgradePair c t1 t2 =>
+    obtain ⟨_, _, _, _, _, _, _, rfl⟩ := upgradePair_spec h
+    exact hpa
+  | advanceBlock n =>
+    obtain ⟨_, _, rfl⟩ := advanceBlock_spec h
+    exact hpa
+  | bareNext b =>
+    obtain ⟨_, rfl⟩ := setBareNext_spec h
+    exact hpa
 
 /-- the next deploy address never decreases -/
 theorem step_nextAddr_le {s s' : St} {op : Op} {o : Out} (h : step s op = some (s', o)) :
